@@ -96,7 +96,7 @@ def edit(rnd, m, history):
         return 'remove-watcher'
     if k == 'numprocesses':
         old = sec['numprocesses']
-        sec['numprocesses'] = str(rnd.choice([x for x in (1, 2, 3, 4) if str(x) != old]))
+        sec['numprocesses'] = str(rnd.choice([x for x in (0, 1, 2, 3, 4) if str(x) != old]))
         return 'numprocesses'
     if k == 'numprocesses-revert':
         prev = [h['watchers'][n]['numprocesses'] for h in history if n in h['watchers']
